@@ -71,6 +71,7 @@ def codec_tie(ctx, prof, pfile, wd):
         return
     dbg = "true" if prof == "dev" else "false"
     cases, kinds, sizes = [], collections.Counter(), {}
+    sizes_hist = collections.Counter()
     distinct = set()
     for line in out.splitlines():
         t = line.split("\t")
@@ -80,6 +81,7 @@ def codec_tie(ctx, prof, pfile, wd):
             if t[2].startswith("ERR "):
                 cases.append((f"QW {t[1]}", f"OWErr {t[2][4:]}"))
                 kinds["write:refused"] += 1
+                kinds["write-error:" + t[2][4:].strip("() ")] += 1
             else:
                 cases.append((f"QW {t[1]}", f"OBytes (hx \"{t[2]}\")"))
                 kinds["write"] += 1
@@ -87,9 +89,15 @@ def codec_tie(ctx, prof, pfile, wd):
         elif t[0] == "N":
             cases.append((f"QN {t[1]}", f"ORes ({t[2]})"))
             kinds["normalize"] += 1
+            for ck in ("CNull", "CBool", "CInt", "CFloat", "CStr", "CFunc", "CPtr"):
+                kinds["const:" + ck] += t[1].count(ck + " ") + t[1].count(ck + ";") + t[1].count(ck + "]")
+            kinds["nesting:" + str(min(3, max(0, t[1].count("(Func") - 1)))] += 1
         elif t[0] == "R":
             cases.append((f"QR {dbg} (hx \"{t[1]}\")", f"ORes ({t[2]})"))
             kinds["read:" + ("accept" if t[2].startswith("ROk") else "crash" if t[2].startswith("RCrash") else "reject")] += 1
+            if t[2].startswith("RErr"):
+                kinds["read-error:" + t[2][5:].strip("() ")] += 1
+            sizes_hist[min(len(t[1]) // 2 // 64, 20)] += 1
             kinds["mut:" + t[3]] += 1
             distinct.add(t[1])
             if t[2].startswith("RCrash"):
@@ -125,6 +133,7 @@ def codec_tie(ctx, prof, pfile, wd):
     ctx.cov["evaluations"] += len(cases)
     ctx.cov["distinct_nontrivial"] += len(distinct)
     ctx.cov.setdefault("codec_case_kinds", {})[prof] = dict(kinds)
+    ctx.cov.setdefault("mutant_size_histogram_64B_buckets", {})[prof] = {str(k * 64): v for k, v in sorted(sizes_hist.items())}
     ctx.add_samples([{"query": q[:600], "observed": o[:600]} for q, o in cases[:1] + cases[len(cases) // 2: len(cases) // 2 + 1]])
 
 
@@ -145,13 +154,19 @@ def aasm_instr_tie(ctx, prof):
     if rc != 0:
         ctx.violation("hx_avbc-crash:aasm", "disassemble/assemble of a single instruction crashed the harness", {"output_tail": out[-1500:]})
         return
-    full, text_only, strs = [], [], []
+    full, text_only, strs, trees = [], [], [], []
     for line in out.splitlines():
         t = line.split("\t")
         if t[0] == "S" and len(t) >= 4:
             lst = lambda x: "[" + "; ".join(x.split(";")) + "]" if x else "[]"
             back = "None" if t[3] in ("ERR", "NONE") else f"(Some {lst(t[3])})"
             strs.append((lst(t[1]), f"({lst(t[2])}, {back})"))
+            continue
+        if t[0] == "T" and len(t) >= 3:
+            if t[2] == "PANIC":
+                ctx.violation("aasm:rebuild-panics", "assemble panicked while rebuilding the function tree", {"items": t[1]})
+            else:
+                trees.append((f"[{t[1]}]", t[2]))
             continue
         if t[0] != "A" or len(t) < 4:
             continue
@@ -193,6 +208,19 @@ def aasm_instr_tie(ctx, prof):
                       {"code_points": strs[k][0], "implementation(text, read back)": strs[k][1]})
     if fails:
         ctx.broken.append(f"correspondence C08 (aasm string literals): {len(fails)} of {len(strs)} strings differ")
+    # `.nested` counts -> tree: real assemble vs Model/AasmTree.v rebuild (consistent counts, arbitrary counts, chains up to 80)
+    timp = "From Aelys Require Import Model.AasmTree.\nOpen Scope N_scope."
+    fails, err = vlib.coq_eval_cases("c08t" + prof, timp, "(fun items => rebuild items)", "rebuilt_eqb", trees, shard=300, timeout=600)
+    if err:
+        ctx.broken.append("correspondence C08 (aasm tree rebuild): model evaluation failed")
+        ctx.log(err[-2000:])
+    for k in fails[:3]:
+        mo, _ = vlib.coq_eval_terms("c08t", timp, [f"rebuild {trees[k][0]}"])
+        ctx.violation("aasm:tree-rebuild-mismatch", "rebuild_hierarchy and Model/AasmTree.v disagree",
+                      {"items": trees[k][0], "implementation": trees[k][1], "model": mo[0] if mo else None})
+    if fails:
+        ctx.broken.append(f"correspondence C08 (aasm tree rebuild): {len(fails)} of {len(trees)} item lists differ")
+    ctx.cov["aasm_instruction_cases"]["trees"] = len(trees)
     ctx.cov["aasm_instruction_cases"]["strings"] = len(strs)
     ctx.cov["evaluations"] += len(full) + len(text_only) + len(strs)
     ctx.cov["distinct_nontrivial"] += len(full) + len(text_only) + len(strs)
@@ -220,7 +248,7 @@ def observational(ctx, prof, pfile, progs, wd, ncorpus):
     if not ok:
         ctx.broken.append(f"harness build failed (hx_avbc, {prof})")
         return {}
-    cmd = [paths["hx_avbc"], "--mode", "run", "--file", pfile, "--tmp", wd]
+    cmd = [paths["hx_avbc"], "--mode", "run", "--file", pfile, "--tmp", wd, "--opts", "0,2" if ctx.tier == "quick" else "0,1,2,3"]
     rc, out = vlib.sh(cmd, timeout=2400)
     if rc != 0:
         ctx.violation("hx_avbc-crash:run", "observational harness crashed outside catch_unwind",
@@ -390,7 +418,7 @@ def run(ctx):
     if ctx.tier == "thorough" and proved:
         ctx.coqchk("C08")
     ctx.cov["refuted_lemmas"] = []
-    ok, out = vlib.coq_make(["Base/CaseCheck.vo", "Model/AvbcObs.vo", "Model/Aasm.vo", "Model/AasmStr.vo"])
+    ok, out = vlib.coq_make(["Base/CaseCheck.vo", "Model/AvbcObs.vo", "Model/Aasm.vo", "Model/AasmStr.vo", "Model/AasmTree.vo"])
     wd = workdir(ctx)
     quick = ctx.tier == "quick"
     corpus, progs = programs(ctx, 30 if quick else 300)
